@@ -126,6 +126,9 @@ func checkC01(c *Ctx) {
 
 	// ---- D2
 	c.c01Atomic("C01/DOM/deliver-after-data", m)
+	// a transaction that never completed adds nothing: a DATA block cut short must not come
+	// back from the read as a complete message
+	c.c03ReadError("C01/DOM/data-read-error", m)
 
 	// ---- D3
 	var adds []*ssa.Call
